@@ -420,7 +420,8 @@ fn build_sets(
                     continue;
                 }
                 // padding strictly shorter than the shortest possible record
-                let pad = (*pad as usize % 4).min(min - 1);
+                // (IPFIX sets may be aligned to 8 octets, RFC 7011 3.3.2)
+                let pad = (*pad as usize % if proto == Proto::Ipfix { 8 } else { 4 }).min(min - 1);
                 let mut sw = W::default();
                 enc_set(&mut sw, id, &body.0, pad);
                 out.bytes.extend_from_slice(&sw.0);
